@@ -170,8 +170,8 @@ def run(ctx):
             evals += 1
             nontriv += 1
             c = ses.client
-            got = (c.has_tls_support(), sorted(c.get_sasl_mechanisms() or []), c.get_implementation())
-            want = (conf["starttls"], sorted(conf["sasl"].decode().split()), "refserver")
+            got = (c.has_tls_support(), sorted(c.get_sasl_mechanisms() or []), c.get_implementation(), c.get_sieve_capabilities(), c.get_sieve_capabilities())
+            want = (conf["starttls"], sorted(conf["sasl"].decode().split()), "refserver", ["fileinto", "vacation"], ["fileinto", "vacation"])
             if got != want:
                 viol.append({"op": "capabilities", "what": "with two clients alive, a client reports (%r) what is not its own server's announcement (%r)" % (got, want)})
             nw = len(ses.wire.writes)
